@@ -210,3 +210,24 @@ Proof.
     pose proof (pow10_pos (18 - d) ltac:(lia)).
     pose proof (Z.mul_div_le a (pow10 (18 - d)) ltac:(lia)). nia.
 Qed.
+
+(* what a refund returns: the recorded external amounts converted back to hub units *)
+Lemma refund_exact_ge18 d a f c :
+  18 <= d <= 24 -> to_hub d (to_ext d a + to_ext d f + to_ext d c) = a + f + c.
+Proof.
+  intros Hd. unfold to_hub, to_ext, HUB_DEC. rewrite !(convert_up 18 d) by lia. rewrite convert_down by lia.
+  replace (a * pow10 (d - 18) + f * pow10 (d - 18) + c * pow10 (d - 18)) with ((a + f + c) * pow10 (d - 18)) by ring.
+  apply Z.div_mul. unfold pow10. apply Z.pow_nonzero; lia.
+Qed.
+
+Lemma refund_bounds_lt18 d a f c :
+  0 <= d < 18 -> 0 <= a -> 0 <= f -> 0 <= c ->
+  let r := to_hub d (to_ext d a + to_ext d f + to_ext d c) in
+  r <= a + f + c /\ a + f + c - r < 3 * pow10 (18 - d).
+Proof.
+  intros Hd Ha Hf Hc. unfold to_hub, to_ext, HUB_DEC. rewrite !(convert_down 18 d) by lia. rewrite convert_up by lia.
+  pose proof (pow10_pos (18 - d) ltac:(lia)) as Hp. set (P := pow10 (18 - d)) in *.
+  pose proof (Z.mul_div_le a P Hp). pose proof (Z.mul_div_le f P Hp). pose proof (Z.mul_div_le c P Hp).
+  pose proof (Z.mul_succ_div_gt a P Hp). pose proof (Z.mul_succ_div_gt f P Hp). pose proof (Z.mul_succ_div_gt c P Hp).
+  cbv zeta. generalize dependent (a / P). generalize dependent (f / P). generalize dependent (c / P). intros. nia.
+Qed.
